@@ -137,6 +137,11 @@ func (r *Run) verifyHelpers(ld *Loaded, filter func(c *Contract) bool) {
 				if err != nil {
 					c.Status = "unverified"
 					r.Stale = append(r.Stale, c.Key+": "+err.Error())
+					if c.Layer != "H" && ownsProp(c, r.Prop) {
+						// an obligation of this very property could not be generated:
+						// the check is undecided (exit 2), never a pass
+						r.engineErr = append(r.engineErr, err.Error())
+					}
 					return
 				}
 				for _, vc := range v {
